@@ -1,16 +1,22 @@
 """C17 -- declared struct types are enforced on every write.
 
 spec: Records (typed-record state machine: registry name -> versions -> field -> type; instances
-      [type, version, fields]; Outcomes(state, op) = the results and next states the property allows)
-TLC:  all histories up to a bound of declare / redeclare / construct / decode / write (direct,
-      non-symbol key, through a struct field, through a pointer field) / element assignment /
-      whole-instance assignment keep WellTyped, RejectedUnchanged, KeepsDefinition; with the named deviations switched on the
-      same machine must violate WellTyped (self-test)
+      [type, version, fields]; pointers kept in variables [instance, version current when taken];
+      Outcomes(state, op) = the results and next states the property allows)
+TLC:  all histories up to a bound of declare / redeclare / construct / decode / encode-and-decode /
+      write (direct, non-symbol key, through a struct field, through a pointer field, through a
+      pointer variable) / element assignment / take a pointer / whole-instance assignment (fresh
+      pointer, pointer field, pointer variable) keep WellTyped, RejectedUnchanged, KeepsDefinition
+      (an instance never changes its definition); with the named deviations switched on the same
+      machine must violate WellTyped (self-test)
 bind: the harness replays exhaustive matrices (route x field type x value kind x declared/undeclared
-      field), construction/decoding matrices, redeclaration histories, all short histories over an
-      operation alphabet and seeded random long histories on the real interpreter; after every step
-      it records ok/err/panic and keys + value types of every live instance; TLC validates every
-      case against Records!Outcomes (RecordsTrace)
+      field), construction/decoding matrices, a field-name matrix (names on both sides, in byte
+      order, of the members "Atype" and "zKeyOrder" the encoders add; round trips through both
+      encodings followed by writes), redeclaration histories with pointers taken before and after
+      the redeclaration, all short histories over an operation alphabet and seeded random long
+      histories on the real interpreter; after every step it records ok/err/panic and type name,
+      keys + value types of every live instance; TLC validates every case against Records!Outcomes
+      (RecordsTrace)
 """
 import json, os
 import vlib, flow
@@ -85,6 +91,11 @@ def run():
                     situations.add((r, _val(a[1][:1] + [x for x in a[1][1:] if isinstance(x, str)]), a[0], e["res"]))
             elif e["op"] == "derefset":
                 routes.add("derefset-" + e["route"])
+            elif e["op"] == "roundtrip":
+                routes.add("roundtrip-" + e["codec"])
+                situations.add(("roundtrip-" + e["codec"], e["res"]))
+            elif e["op"] == "takeptr":
+                routes.add("takeptr")
             elif e["op"] == "elem":
                 routes.add(e["route"])
                 situations.add((e["route"], _val(e["v"]), e["field"] + "[%d]" % e["idx"], e["res"]))
@@ -101,10 +112,14 @@ def run():
         "exhaustive": True,
         "rule": "m: every write route (13 direct, 10 through a struct/pointer field) x 8 field types x 21 value kinds x "
                 "declared/undeclared field, forwards and backwards; k: 8 construction/decoding routes x 8 field types x 6 "
-                "argument shapes x value kinds; r: 9x9 pairs of definitions of one struct x routes (instances of both "
-                "versions written, constructed, assigned as a whole); v: the struct named by a field type redeclared; "
+                "argument shapes x value kinds; n: 8 field names (before Atype, between Atype and zKeyOrder, after zKeyOrder, "
+                "non-ASCII) x 4 field types x 8 construction/decoding routes: valid, wrong-typed and undeclared members "
+                "(7 undeclared names, digit-leading and ~ in documents), round trips through json and msgpack, each followed "
+                "by writes; r: 9x9 pairs of definitions of one struct x routes (instances of both "
+                "versions written, constructed, encoded and decoded, assigned as a whole through pointers taken before and "
+                "after the redeclaration); v: the struct named by a field type redeclared; "
                 "e: 4 element-assignment routes x 3 slice types x element kinds x index on filled/unset/empty/non-slice fields; "
-                "h: every history of length <= L over a 39-operation alphabet after a 4-step prelude (longer ones sampled); "
+                "h: every history of length <= L over a 46-operation alphabet after a 5-step prelude (longer ones sampled); "
                 "z: seeded random histories of 40 steps",
     }
     return flow.finish(out, "model_checking", cov, [
@@ -112,7 +127,11 @@ def run():
         "(a slice's element type off all its elements; [nil ...] is a slice the language cannot type)",
         "struct or pointer values whose struct was redeclared between the declaration of the field, the creation of the value "
         "and the write: both acceptance and rejection are allowed (the statement does not say whether versions are one type)",
-        "whole-instance assignment (derefSet) between instances of different versions of one struct: both outcomes allowed",
+        "whole-instance assignment (derefSet) into an instance made under another definition of the struct than the payload "
+        "must be refused (the instance keeps its definition); two versions with equal definitions: both outcomes allowed; "
+        "the payload is always a fresh instance of the current version",
+        "round trips: the encodings have no form for a pointer (an instance holding one must fail to round-trip); nested "
+        "instances of an older version or holding more than plain values: both outcomes allowed",
         "one interpreter per harness process (a second interpreter in the same process cannot declare structs at all); "
         "cases are separated by unique struct and variable names",
         "records containing themselves by value cannot arise from the generated inputs, whatever the library accepts "
